@@ -32,9 +32,13 @@ ValuesOf(cfg, i) ==
 
 (* nilsec: the operation's (empty) security list is built in code as a pointer to a nil slice (var own                *)
 (* openapi3.SecurityRequirements; op.Security = &own) instead of being read from a document: still "declares none"    *)
-MkU(os, ds, acc, cfg, body, mu, xb, xq, rb, un) ==
+(* MkU: the operation declares a (required) body exactly when the request carries one (rounds 1-5); MkB: the           *)
+(* declaration and what the request carries vary independently                                                         *)
+MkB(os, ds, acc, cfg, bd, body, mu, xb, xq, rb, un) ==
    [nilsec |-> FALSE, unsized |-> un, opSec |-> os, docSec |-> ds, accepts |-> acc, pparams |-> ParamsOf(cfg, "p", 1), oparams |-> ParamsOf(cfg, "o", 1),
-    values |-> ValuesOf(cfg, 1), body |-> body, multi |-> mu, exclBody |-> xb, exclQuery |-> xq, authReadsBody |-> rb]
+    values |-> ValuesOf(cfg, 1), bdecl |-> bd, body |-> body, multi |-> mu, exclBody |-> xb, exclQuery |-> xq, authReadsBody |-> rb, hist |-> <<>>]
+MkU(os, ds, acc, cfg, body, mu, xb, xq, rb, un) ==
+   MkB(os, ds, acc, cfg, IF body = "none" THEN "none" ELSE "required", body, mu, xb, xq, rb, un)
 
 Mk(os, ds, acc, cfg, body, mu, xb, xq, rb) == MkU(os, ds, acc, cfg, body, mu, xb, xq, rb, FALSE)
 
@@ -42,8 +46,51 @@ NoParams == <<Inactive, Inactive, Inactive>>
 OneFailingQuery == <<[p |-> "none", o |-> "int", t |-> "x"], Inactive, Inactive>>
 PathLevelFailingQuery == <<[p |-> "int", o |-> "none", t |-> "x"], Inactive, Inactive>>
 
+Bodies == {"none", "empty", "pass", "fail", "otherct", "badjson"}
+BDecls == {"none", "optional", "required"}
+
+(* ---- histories: further validations in the same process (RequestCheck!View) ---- *)
+HKinds == {"none", "int", "reqint"}
+(* key 1 = query a with every level/kind/text; key 2 = header a, path-level only, never sent (so a required one fails) *)
+HCfg(p, o, p2) == <<[p |-> p, o |-> o], [p |-> p2, o |-> "none"], [p |-> "none", o |-> "none"]>>
+HValues(t) == IF t = "-" THEN <<>> ELSE <<V("query", "a", t)>>
+HBase(os, ds, acc, cfg, t, bd, body, mu) ==
+   [nilsec |-> FALSE, unsized |-> FALSE, opSec |-> os, docSec |-> ds, accepts |-> acc, pparams |-> ParamsOf(cfg, "p", 1), oparams |-> ParamsOf(cfg, "o", 1),
+    values |-> HValues(t), bdecl |-> bd, body |-> body, multi |-> mu, exclBody |-> FALSE, exclQuery |-> FALSE, authReadsBody |-> FALSE, hist |-> <<>>]
+Step(via, os, ds, cfg, bd) == [via |-> via, pparams |-> ParamsOf(cfg, "p", 1), oparams |-> ParamsOf(cfg, "o", 1), opSec |-> os, docSec |-> ds, bdecl |-> bd]
+(* every history ends by going back to the first route (A-B-A): both "the first one seen wins" and "the last one seen  *)
+(* wins" show                                                                                                          *)
+WithHist(b, s) == [b EXCEPT !.hist = <<s, StepOf(b, "back")>>]
+HSecs == {Absent, L(<<>>), L(<< <<"A">> >>)}
+
 VARIABLE case
 Init ==
+   \* body focus: what the operation declares x what the request carries x exclusion x security outcome x multi-error
+   \/ \E bd \in BDecls, body \in Bodies, sec \in {"nosec", "pass", "fail"}, mu \in BOOLEAN, xb \in BOOLEAN, rb \in BOOLEAN, un \in BOOLEAN,
+         cfg \in {NoParams, OneFailingQuery} :
+        /\ (rb => sec # "nosec") /\ (un => body # "none")
+        /\ (Tier = "quick" => (cfg = OneFailingQuery => ~rb /\ ~un))
+        /\ case = MkB(IF sec = "nosec" THEN Absent ELSE L(<< <<"A">> >>), <<>>, IF sec = "pass" THEN {"A"} ELSE {},
+                      cfg, bd, body, mu, xb, FALSE, rb, un)
+   \* history focus, parameters: a second validation that sees other path-level parameters (through an alias path item
+   \* holding the same Operation value, or after an edit), other operation-level parameters (a sibling operation of the
+   \* same path item, or after an edit), then the first route again
+   \/ \E p \in HKinds, o \in HKinds, p2 \in {"none", "reqint"}, t \in {"1", "x", "-"},
+         q \in HKinds, r \in HKinds, q2 \in {"none", "reqint"}, via \in {"share", "sibling", "edit"}, mu \in BOOLEAN :
+        /\ <<p, o, p2>> # <<q, r, q2>>
+        /\ (via = "share" => r = o) /\ (via = "sibling" => q = p /\ q2 = p2)
+        /\ (Tier = "quick" /\ via = "edit" => (q = p /\ q2 = p2) \/ r = o)
+        /\ case = WithHist(HBase(Absent, <<>>, {}, HCfg(p, o, p2), t, "none", "none", mu),
+                            Step(via, Absent, <<>>, HCfg(q, r, q2), "none"))
+   \* history focus, security and body declaration: the sibling operation / the edited document has another security
+   \* list (operation or document level) or another requestBody declaration
+   \/ \E os \in HSecs, ds \in {<<>>, << <<"B">> >>}, os2 \in HSecs, ds2 \in {<<>>, << <<"B">> >>}, acc \in {{}, {"A"}, {"B"}},
+         bd \in BDecls, bd2 \in BDecls, body \in {"none", "pass", "fail"}, via \in {"sibling", "edit"}, mu \in BOOLEAN :
+        /\ <<os, ds, bd>> # <<os2, ds2, bd2>>
+        /\ (via = "sibling" => ds2 = ds)
+        /\ (Tier = "quick" => (bd2 # bd => os2 = os /\ ds2 = ds /\ acc = {}) /\ (bd2 = bd => bd = "none" /\ body = "none"))
+        /\ case = WithHist(HBase(os, ds, acc, HCfg("none", "none", "none"), "-", bd, body, mu),
+                            Step(via, os2, ds2, HCfg("none", "none", "none"), bd2))
    \* security focus
    \/ \E os \in OpSecs, ds \in DocSecs, acc \in SUBSET {"A", "B", "C"}, body \in {"none", "pass", "fail"},
          cfg \in {NoParams, OneFailingQuery}, mu \in BOOLEAN, rb \in BOOLEAN :
